@@ -43,7 +43,8 @@ def cfg_text(consts, spec, invariants=(), properties=(), view=None):
 
 
 class StoreRecorder(object):
-    def __init__(self, backend, workdir):
+    def __init__(self, backend, workdir, nonev=False):
+        self.nonev = nonev          # value ids 10k+2 stand for the value None (a stored None is a value like any other)
         self.klepto = common.import_klepto()
         A = self.klepto._archives
         self.backend = backend
@@ -87,11 +88,20 @@ class StoreRecorder(object):
     def key(k):
         return 'k%d' % k
 
+    def V(self, v):
+        return None if (self.nonev and isinstance(v, int) and v % 10 == 2) else v
+
+    def unV(self, x, k=0):
+        if x is None and self.nonev:
+            return 10 * k + 2
+        return x
+
     def project(self, d):
         out = [0] * NK
         for rk, v in d.items():
-            if isinstance(rk, str) and rk[:1] == 'k' and rk[1:].isdigit() and 1 <= int(rk[1:]) <= NK \
-                    and isinstance(v, int) and not isinstance(v, bool) and v != 0:
+            kid = int(rk[1:]) if isinstance(rk, str) and rk[:1] == 'k' and rk[1:].isdigit() else 0
+            v = self.unV(v, kid)
+            if 1 <= kid <= NK and isinstance(v, int) and not isinstance(v, bool) and v != 0 and not (self.nonev and v % 10 == 2 and v != 10 * kid + 2):
                 out[int(rk[1:]) - 1] = v
             else:
                 out[NK - 1] = -7      # a key or value that was never stored
@@ -150,15 +160,15 @@ class StoreRecorder(object):
             op = o['op']
             try:
                 if op == 'mset':
-                    c[K(o['k'])] = o['v']
+                    c[K(o['k'])] = self.V(o['v'])
                 elif op == 'mdel':
                     del c[K(o['k'])]
                 elif op == 'mpop':
-                    e['ret'] = c.pop(K(o['k']))
+                    e['ret'] = self.unV(c.pop(K(o['k'])), o['k'])
                 elif op == 'mget':
-                    e['ret'] = c[K(o['k'])]
+                    e['ret'] = self.unV(c[K(o['k'])], o['k'])
                 elif op == 'mupdate':
-                    c.update({K(o['k']): o['v'], K(o['k2']): o['v2']})
+                    c.update({K(o['k']): self.V(o['v']), K(o['k2']): self.V(o['v2'])})
                 elif op == 'mclear':
                     c.clear()
                 elif op == 'mlen':
@@ -168,22 +178,22 @@ class StoreRecorder(object):
                 elif op == 'mcontains':
                     e['ret'] = 1 if K(o['k']) in c else 0
                 elif op == 'msetdefault':
-                    e['ret'] = c.setdefault(K(o['k']), o['v'])
+                    e['ret'] = self.unV(c.setdefault(K(o['k']), self.V(o['v'])), o['k'])
                 elif op == 'mpopitem':
                     e['rk'] = 0
                     rk, rv = c.popitem()
                     e['rk'] = int(rk[1:]) if isinstance(rk, str) and rk[1:].isdigit() else -1
-                    e['ret'] = rv
+                    e['ret'] = self.unV(rv, e['rk'])
                 elif op == 'mpopkeys':
-                    e['ret'] = enc_seq(c.popkeys([K(k) for k in o['keys']]))
+                    e['ret'] = enc_seq([self.unV(x, k) for x, k in zip(c.popkeys([K(k) for k in o['keys']]), o['keys'])])
                 elif op == 'mpopkeysd':
-                    e['ret'] = enc_seq(c.popkeys([K(k) for k in o['keys']], 77))
+                    e['ret'] = enc_seq([self.unV(x, k) for x, k in zip(c.popkeys([K(k) for k in o['keys']], 77), o['keys'])])
                 elif op == 'aclear':
                     self.handles[o['x'] - 1][1].clear()
                 elif op == 'aupdate':
-                    self.handles[o['x'] - 1][1].update({K(o['k']): o['v'], K(o['k2']): o['v2']})
+                    self.handles[o['x'] - 1][1].update({K(o['k']): self.V(o['v']), K(o['k2']): self.V(o['v2'])})
                 elif op == 'aset':
-                    self.handles[o['x'] - 1][1][K(o['k'])] = o['v']
+                    self.handles[o['x'] - 1][1][K(o['k'])] = self.V(o['v'])
                 elif op == 'adel':
                     del self.handles[o['x'] - 1][1][K(o['k'])]
                 elif op == 'load':
@@ -222,13 +232,14 @@ class StoreRecorder(object):
 
 
 def _replay_one(job):
-    backend, ops, wd = job
+    backend, ops, wd = job[:3]
+    nonev = len(job) > 3 and job[3]
     os.makedirs(wd, exist_ok=True)
     cwd = os.getcwd()
     try:
-        r = StoreRecorder(backend, wd)
+        r = StoreRecorder(backend, wd, nonev=nonev)
         t = r.run(ops)
-        t['meta'] = {'backend': backend, 'ops': ops}
+        t['meta'] = {'backend': backend, 'ops': ops, 'nonev': bool(nonev)}
         return t
     except common.MachineryError as e:
         return {'error': str(e)}
@@ -328,7 +339,7 @@ def main(pid, tier):
     for n, ops in enumerate(behaviours):
         bks = BACKENDS if (thorough or n % 29 == 0) else [BACKENDS[n % len(BACKENDS)]]
         for bk in bks:
-            jobs.append((bk, ops, os.path.join(root, 'j%d' % len(jobs))))
+            jobs.append((bk, ops, os.path.join(root, 'j%d' % len(jobs)), n % 3 == 1))      # every third: second values are None
     t0 = time.time()
     ctx = multiprocessing.get_context('fork')
     with ctx.Pool(common.NCPU) as pool:
@@ -351,7 +362,7 @@ def main(pid, tier):
         if v is not None:
             e = t['events'][v[0] - 1]
             rep.reject({'engine': 'store', 'backend': t['meta']['backend'], 'op': e['op'], 'clauses': v[1], 'exc': e['exc']},
-                       {'backend': t['meta']['backend'], 'ops': t['meta']['ops'][:v[0]], 'event_index': v[0],
+                       {'backend': t['meta']['backend'], 'nonev': t['meta']['nonev'], 'ops': t['meta']['ops'][:v[0]], 'event_index': v[0],
                         'clauses': v[1], 'event': e})
     sample = {'backend': traces[0]['meta']['backend'], 'ops': traces[0]['meta']['ops'][:8],
               'events': [{k: e[k] for k in ('op', 'ret', 'exc', 'mem', 'archs', 'cur')} for e in traces[0]['events'][:4]]}
@@ -376,7 +387,7 @@ def main(pid, tier):
 def replay(pid, path):
     """re-run the recorded operation sequence on the current tree and let TLC judge it again"""
     case = json.load(open(path))['case']
-    t = _replay_one((case['backend'], case['ops'], os.path.join(common.scratch('store-replay1'), 'r')))
+    t = _replay_one((case['backend'], case['ops'], os.path.join(common.scratch('store-replay1'), 'r'), case.get('nonev', False)))
     if 'error' in t:
         raise common.MachineryError(t['error'])
     verdicts, _ = common.validate_traces('StoreTrace', [{k: t[k] for k in ('cfg', 'init', 'events')}], [pid])
